@@ -309,3 +309,6 @@ func EnumConsts(t types.Type) map[int64]string {
 	}
 	return out
 }
+
+// FieldNameOf exposes fieldName.
+func FieldNameOf(t types.Type, i int) string { return fieldName(t, i) }
